@@ -33,6 +33,7 @@ int simfs_fopen_calls, simfs_fopen_failed;
 char simfs_last_cmd[512];
 static int open_dirs;
 static int mkstemp_base_mode = 0600;
+static int dir_grows;
 void simfs_set_mkstemp_mode(int m) { mkstemp_base_mode = m; }
 static int fdopen_fail_at, fchmod_fail_at, fdopen_calls, fchmod_calls;
 int simenv_exit_called;
@@ -90,6 +91,7 @@ void simfs_reset(uint64_t seed)
     open_dirs = 0;
     simenv_exit_called = 0;
     mkstemp_base_mode = 0600;
+    dir_grows = 0;
     last_temp[0] = 0;
     fdopen_fail_at = fchmod_fail_at = fdopen_calls = fchmod_calls = 0;
     simfs_add_dir("/");
@@ -251,7 +253,7 @@ char *sim_getcwd(char *buf, size_t n)
     strcpy(buf, cwd);
     return buf;
 }
-typedef struct { int idx[MAXNODES]; int n, pos; struct dirent de; } sdir_t;
+typedef struct { int idx[MAXNODES]; int n, pos, node; struct dirent de; } sdir_t;
 static uint64_t dir_order_key(const char *path)
 {
     uint64_t h = 1469598103934665603ULL ^ fs_seed;
@@ -259,17 +261,38 @@ static uint64_t dir_order_key(const char *path)
     h ^= h >> 29; h *= 0xbf58476d1ce4e5b9ULL; h ^= h >> 32;
     return h;
 }
+void simfs_set_dir_grows(int on) { dir_grows = on; }
+static void dir_snapshot(sdir_t *d);
+/* the file that arrives in directory `node` between two passes over it (present != 0) and is gone again by the next opendir (present == 0) */
+static void dir_arrival(int node, int present)
+{
+    char p[PATH_MAX];
+    int k;
+    snprintf(p, sizeof(p), "%s%sarrived-while-the-directory-was-being-read-%0120d.tmp", nodes[node].path, strcmp(nodes[node].path, "/") ? "/" : "", 7);
+    k = find_node(p);
+    if (present && k < 0) { if (add_node(p, "", 0, 0644, 0) >= 0) probe_hit("directory_grew_between_two_passes"); }
+    else if (!present && k >= 0) { nodes[k].live = 0; }
+}
 DIR *sim_opendir(const char *path)
 {
     int i;
     sdir_t *d;
-    size_t pl;
     sim_step();
     i = find_node(path);
     if (i < 0) return NULL;
     if (!nodes[i].isdir) { errno = ENOTDIR; return NULL; }
     d = calloc(1, sizeof(*d));
-    pl = strlen(nodes[i].path);
+    d->node = i;
+    dir_arrival(i, 0);          /* a fresh look at the directory: the file that came in during an earlier second pass has gone again */
+    dir_snapshot(d);
+    open_dirs++;
+    return (DIR *)d;
+}
+static void dir_snapshot(sdir_t *d)
+{
+    int i = d->node;
+    size_t pl = strlen(nodes[i].path);
+    d->n = 0; d->pos = 0;
     for (int k = 0; k < nnodes; k++) {
         const char *p = nodes[k].path;
         if (!nodes[k].live || k == i) continue;
@@ -285,8 +308,16 @@ DIR *sim_opendir(const char *path)
         while (b > 0 && dir_order_key(nodes[d->idx[b - 1]].path) > ht) { d->idx[b] = d->idx[b - 1]; b--; }
         d->idx[b] = t;
     }
-    open_dirs++;
-    return (DIR *)d;
+}
+/* rewinddir(): "causes the directory stream to refer to the current state of the directory".  With the knob dir.grows set, another process
+   has put a file with a long name there in the meantime -- code that measured the listing in a first pass finds more in the second. */
+void sim_rewinddir(DIR *dp)
+{
+    sdir_t *d = (sdir_t *)dp;
+    sim_step();
+    if (dir_grows) dir_arrival(d->node, 1);
+    dir_snapshot(d);
+    tr_printf("rewinddir %.60s -> %d entries", nodes[d->node].path, d->n);
 }
 struct dirent *sim_readdir(DIR *dp)
 {
